@@ -166,7 +166,8 @@ def parse_skel(toks):
     return skeleton(Parser(toks).parse())
 
 
-ATOM_NAMES = {"@l": "L", "@r": "R", "@a": "A", "@b": "B"}
+ATOM_NAMES = {"@l": "L", "@r": "R", "@a": "A", "@b": "B", "@o": "O", "@i": "I", "@t": "T", "@s.Some.0": "S", "@e.Some.0": "E",
+              "@p.Some.0": "P"}
 
 
 def rust_text(toks):
@@ -277,10 +278,197 @@ def tokens_of(ex, o):
 
 def build(pid, P, R, tier, log_dir):
     import mirx_props as mp
-    if pid != "C01":
-        return []
-    return [mp.XOb("E-emit-flat", "", "", lambda: run_flat(P, R, log_dir)),
-            mp.XOb("G-grouping", "", "", lambda: run_grouping(P, R, log_dir))]
+    obs = []
+    if pid == "C01":
+        obs += [mp.XOb("E-emit-flat", "", "", lambda: run_flat(P, R, log_dir)),
+                mp.XOb("G-grouping", "", "", lambda: run_grouping(P, R, log_dir))]
+    if pid in ("C01", "C05"):
+        obs.append(mp.XOb("E-emit-index-slice", "", "", lambda: run_index_slice(P, R, log_dir)))
+    return obs
+
+
+def atom_executor(P, R):
+    ex = mirx.make_executor(P, R, max_paths=2000000)
+    ex.opaque_calls = mirx.slice_opaque
+    ex.recursion_bound = 3
+
+    def emit_expr_atom(ex_, callee, args, st):
+        e = ex_.deref(args[1], st)
+        return [("return", Adt("Result", "Ok", [Tokens(["@" + e.name])]), None, st)]
+    ex.state_intrinsics = dict(mirx.STATE_INTRINSICS)
+    ex.state_intrinsics[r"::emit_expr$"] = emit_expr_atom
+    return ex
+
+
+def base_type(ex, o, tysym, R, mp):
+    """IrType variant name of `ty` looking through one Ref/RefMut, from the path facts (None if not fixed on this path)."""
+    irt = mp.variants(R, "IrType")
+    f = o.state.facts.get(tysym.tag().term)
+    if not f or f[0] != "eq":
+        return None
+    name = irt[f[1]]
+    if name in ("Ref", "RefMut"):
+        inner = tysym.child(name, 0)
+        f2 = o.state.facts.get(inner.tag().term)
+        return irt[f2[1]] if f2 and f2[0] == "eq" else "<other>"
+    return name
+
+
+def run_index_slice(P, R, log_dir):
+    """`s[i]` and `s[a:b:c]` are emitted as calls of the documented run-time helper for the container kind, with the container and the
+    index / the three optional bounds in the documented positions (absent bound = None)."""
+    import mirx_props as mp
+    t0 = time.time()
+    fi = [v for k, v in P.fns.items() if k.endswith("::emit_index_expr")]
+    fs = [v for k, v in P.fns.items() if k.endswith("::emit_slice_expr")]
+    if len(fi) != 1 or len(fs) != 1:
+        raise Inconclusive("emit_index_expr / emit_slice_expr not found (or ambiguous) in the MIR dump")
+    td = R.resolve("TypedExpr")
+    i_ty = [x[0] for x in td.variants[0][1]].index("ty")
+    # ---- index
+    exi = atom_executor(P, R)
+    selfv = exi.sym_value("IrEmitter", "self")
+    o_ = exi.sym_value("TypedExpr", "o")
+    i_ = exi.sym_value("TypedExpr", "i")
+    outs_i = exi.run(fi[0], [selfv, o_, i_])
+    # ---- slice
+    exs = atom_executor(P, R)
+    selfs = exs.sym_value("IrEmitter", "self")
+    t_ = exs.sym_value("TypedExpr", "t")
+    s_ = exs.sym_value("std::option::Option<std::boxed::Box<TypedExpr>>", "s")
+    e_ = exs.sym_value("std::option::Option<std::boxed::Box<TypedExpr>>", "e")
+    p_ = exs.sym_value("std::option::Option<std::boxed::Box<TypedExpr>>", "p")
+    outs_s = exs.run(fs[0], [selfs, t_, s_, e_, p_])
+    items = []   # (kind, outcome, tokens, expected regex)
+    panics = []
+    for o in outs_i:
+        if o.kind != "return":
+            panics.append(("index", exi, o))
+            continue
+        toks = tokens_of(exi, o)
+        if toks is None:
+            continue      # an error of a sub-emission propagated with `?`
+        bt = base_type(exi, o, o_.child(None, i_ty), R, mp)
+        if bt in ("String", "FrozenStr"):
+            want = r"^\(call:incan_stdlib::strings::str_index O I\)$"
+        elif bt == "List":
+            want = r"^(\(method:clone )?\(call:incan_stdlib::collections::list_get O I\)\)?$"
+        elif bt == "Dict":
+            want = r"^(\(method:clone )?\(call:incan_stdlib::collections::dict_get O I\)\)?$"
+        else:
+            want = None
+        items.append(("index " + str(bt), exi, o, toks, want))
+
+    def present(o, sym):
+        f = o.state.facts.get(sym.tag().term)
+        return None if not f or f[0] != "eq" else (f[1] == 1)
+    for o in outs_s:
+        if o.kind != "return":
+            panics.append(("slice", exs, o))
+            continue
+        toks = tokens_of(exs, o)
+        if toks is None:
+            continue
+        bt = base_type(exs, o, t_.child(None, i_ty), R, mp)
+        pres = [present(o, x) for x in (s_, e_, p_)]
+        if None in pres:
+            items.append(("slice ?", exs, o, toks, "^$"))
+            continue
+        args = " ".join((f"(call:Some {n})" if pr else "None") for n, pr in zip("SEP", pres))
+        helper = "incan_stdlib::strings::str_slice" if bt in ("String", "FrozenStr") else "incan_stdlib::collections::list_slice"
+        items.append((f"slice {bt} {pres}", exs, o, toks, "^" + re.escape(f"(call:{helper} T {args})") + "$"))
+    parsed = syn_batch([it[3] for it in items], log_dir)
+    failing = []
+    for it, pr in zip(items, parsed):
+        if it[4] is None:
+            continue     # container kinds without a documented helper (fallback emission) are outside the statement
+        if not (pr[0] == "OK" and re.match(it[4], pr[1])):
+            failing.append((it, pr))
+    feas = []
+    for it, pr in failing:
+        res = solver.check(mp.smt_lines(it[1], [conj(it[2].pc)]), [], "z3", 60)
+        if res.status == "sat":
+            feas.append((it, pr))
+    r = {"id": "E-emit-index-slice", "engine": "E2-X mirsmt + syn",
+         "statement": "`x[i]` is emitted as incan_stdlib::strings::str_index(&x, i) for str / FrozenStr (also behind a reference), "
+                      "collections::list_get for lists, collections::dict_get for dicts; `x[a:b:c]` as strings::str_slice / collections::list_slice "
+                      "(&x, start, end, step) with each bound in its own position and an absent bound emitted as None - on every path",
+         "bound": f"all IrType variants of the container (one level of Ref/RefMut), presence/absence of each of the three bounds; operands as atoms; "
+                  f"{len(outs_i)} + {len(outs_s)} paths",
+         "encoding": "enum tags as bounded Int; tokens as pushed strings; parsing by syn",
+         "functions_encoded": [n + " (MIR)" for n in exi.encoded + exs.encoded], "paths": len(outs_i) + len(outs_s),
+         "samples_tokens": [{"case": it[0], "tokens": rust_text(it[3])} for it in items[:3] + items[-3:]]}
+    base = os.path.join(log_dir, "E-emit-index-slice")
+    vac = solver.check(mp.smt_lines(exs, [disj([conj(o.pc) for o in outs_s if o.kind == "return"])]), [], "z3", 60, save_as=base + ".vac.smt2")
+    if vac.status != "sat" or not items:
+        r.update(status="inconclusive", reason=f"vacuity twin {vac.status}", wall_s=round(time.time() - t0, 2))
+        return r
+    r["vacuity_ok"] = True
+    for kind, ex_, o in panics:
+        res = solver.check(mp.smt_lines(ex_, [conj(o.pc)]), [], "z3", 60)
+        if res.status == "sat":
+            r.update(status="inconclusive", wall_s=round(time.time() - t0, 2),
+                     reason=f"a feasible path of the {kind} emitter panics or returns an error ({o.info})")
+            return r
+    r["wall_s"] = round(time.time() - t0, 2)
+    if not feas:
+        r.update(status="held", solver=f"{len(items)} path classes parse (syn) to the documented helper call")
+        return r
+    it, pr = feas[0]
+    rec = {"case": it[0], "emitted": rust_text(it[3]), "syn": f"{pr[0]} {pr[1]}", "documented": it[4]}
+    broken, text = native_index_slice(it[0], log_dir)
+    r["native"] = text
+    if broken:
+        os.makedirs(os.path.join(common.REPLAYS_DIR, "MIRX"), exist_ok=True)
+        rp = os.path.join(common.REPLAYS_DIR, "MIRX", "E-emit-index-slice.replay")
+        with open(rp, "w") as fh:
+            fh.write(f"mirx indexslice {it[0].replace(' ', '_')}\n# {rec}\n# {text}\n")
+        r.update(status="violated", replay=rp, counterexample={"class": rec, "native": text})
+    else:
+        r.update(status="inconclusive", reason=f"class {rec} does not reproduce through the real pipeline: {text}")
+    return r
+
+
+def native_index_slice(case, log_dir):
+    """case: 'index String' | 'index List' | 'slice String [True, False, True]' ...  -> (broken?, text)"""
+    import kani
+    parts = case.replace("_", " ").split(" ", 2)
+    kind, bt = parts[0], parts[1]
+    is_str = bt in ("String", "FrozenStr")
+    cty = "str" if is_str else "List[int]"
+    if kind == "index":
+        if bt not in ("String", "List"):
+            return None, f"no surface program for indexing a {bt}"
+        src = f"def f(x: {cty}, i: int) -> {'str' if is_str else 'int'}:\n    return x[i]\n"
+        helper = "incan_stdlib::strings::str_index" if is_str else "incan_stdlib::collections::list_get"
+        want = rf"^(\(method:clone )?\(call:{re.escape(helper)} x i\)\)?$"
+    else:
+        pres = [w.strip(" [],") == "True" for w in parts[2].split(",")]
+        a, b, c = [(n if pr else "") for n, pr in zip("abc", pres)]
+        sl = f"{a}:{b}" + (f":{c}" if pres[2] else "")
+        src = f"def f(x: {cty}, a: int, b: int, c: int) -> {cty}:\n    return x[{sl}]\n"
+        helper = "incan_stdlib::strings::str_slice" if is_str else "incan_stdlib::collections::list_slice"
+        args = " ".join((f"(call:Some {n})" if pr else "None") for n, pr in zip("abc", pres))
+        want = "^" + re.escape(f"(call:{helper} x {args})") + "$"
+    path = os.path.join(log_dir, "indexslice_replay.incn")
+    with open(path, "w") as fh:
+        fh.write(src)
+    texts, broken = [], False
+    for prof in ("dev", "release"):
+        binp = kani.build_replay(prof, True, log_dir)
+        rc, out, _, to = common.run([binp, "emitrust", path], timeout=60)
+        m = re.search(r"fn f\([^)]*\)[^{]*\{\s*return (.*?);\s*\}", out, re.S)
+        if not m:
+            if "CODEGEN-ERROR" in out:
+                broken = True
+                texts.append(f"[{prof}] code generation fails: {out.strip()[-120:]}")
+                continue
+            return None, f"no generated body: {out.strip()[-200:]}"
+        res = syn_batch([rust_tokens(m.group(1))], log_dir)[0]
+        ok = res[0] == "OK" and re.match(want, res[1]) is not None
+        broken = broken or not ok
+        texts.append(f"[{prof}] `{src.strip().splitlines()[-1].strip()}` emitted as `{m.group(1).strip()}` -> {res[1]}")
+    return broken, "; ".join(texts)
 
 
 def op_facts(o, term):
@@ -685,6 +873,30 @@ def witness_program(outer, inner):
         body, should = f"c {oop} (a {iop} b)", "c + (a + b)"
     src = f"def f(a: {ity}, b: {ity}, c: {cty}) -> {ores}:\n    return {body}\n"
     return src, "f", should
+
+
+def replay_indexslice(pid, path):
+    head = open(path).readline().split()
+    log_dir = os.path.join(common.WORK_DIR, pid, "replay")
+    os.makedirs(log_dir, exist_ok=True)
+    broken, text = native_index_slice(head[2], log_dir)
+    say(text)
+    if broken:
+        say(f"VIOLATION property={pid} replay={path}")
+        return 1
+    return 0
+
+
+def replay_flat(pid, path):
+    head = open(path).readline().split()
+    log_dir = os.path.join(common.WORK_DIR, pid, "replay")
+    os.makedirs(log_dir, exist_ok=True)
+    got = native_flat(head[2], head[3], head[4], log_dir)
+    say(got[1])
+    if got[0]:
+        say(f"VIOLATION property={pid} replay={path}")
+        return 1
+    return 0
 
 
 def replay_grouping(pid, path):
